@@ -210,7 +210,7 @@ func evalFault(c FaultCase, p *progen.Program, ref *progen.RefResult, expect str
 	completedBefore := map[string]bool{}
 	for _, j := range res.Jobs {
 		if j.Finished && j.How == "complete" && j.Recorded && j.Key != f.Job {
-			completedBefore[j.Key] = true
+			completedBefore[keyIdent(j.Key)] = true
 		}
 	}
 	res2 := Run(p, Schedule{}, Options{PsDir: dir, Enforce: c.Enforce, Resume: true, MrpPid: 5252})
@@ -232,7 +232,7 @@ func evalFault(c FaultCase, p *progen.Program, ref *progen.RefResult, expect str
 	}
 	var rerun []string
 	for _, j := range res2.Jobs {
-		if completedBefore[j.Key] {
+		if completedBefore[keyIdent(j.Key)] {
 			// jobs of the failed fork's own later phases may legitimately
 			// be redone only if they had not completed; completed ones not
 			rerun = append(rerun, j.Key)
